@@ -142,13 +142,16 @@ def build_bundle(rec):
             return p.astype(np.float32)
         return p
 
+    # a hand-made snapshot with integer box lengths: np.diag([6, 5, 7]) is an integer array
+    int_cell = bool(rec["intbounds"] and not tri and not rec.get("huge") and rec["subseed"] % 3 == 0)
+
     def mk(frames):
         snaps = []
         for t, p in enumerate(frames):
             snaps.append(SingleSnapshot(
                 timestep=steps[t], nparticle=N, particle_type=types.copy() if mem != "f32" else types.astype(np.uint32) + 0, positions=store(p),
                 boxlength=L.copy(), boxbounds=bounds.copy(), realbounds=None if real is None else real.copy(),
-                hmatrix=h.copy()))
+                hmatrix=h.astype(np.int64) if int_cell else h.copy()))
         return Snapshots(nsnapshots=T, snapshots=snaps)
 
     meta = {"ndim": ndim, "N": N, "T": T, "K": K, "cell": rec["cell"], "centred": bool(rec["centred"]),
